@@ -640,6 +640,13 @@ async def _timer(
             state=state,
         )
         state = state.with_outcomes(outcomes)
+
+        # A timer that has failed for good is never started again: not by this task (the failed
+        # state is kept, see above), and not by a re-spawn after a filter mismatch or an operator
+        # pause either (the same as for the daemons that have exited on their own).
+        if state.done and state.counts.failure:
+            memory.forever_stopped.add(handler.id)
+
         progression.deliver_results(outcomes=outcomes, patch=patch)
         _, remaining_patch = await application.patch_and_check(
             settings=settings,
